@@ -1,7 +1,11 @@
-(* C13 (4),(5): from_molecule box arithmetic (rotate=False) and closest_point. *)
+(* C13 (4),(5): from_molecule box arithmetic (rotate=False) and closest_point: the statements that hold BOTH for the
+   code as it is at the pinned commit and for the repaired code (shape_axis_gen, origin_axis_gen, closest_coord_gen
+   are generated from the source; the scripts below do not depend on which variant was generated).
+   Full-strength statements: C13_proofs_boxfull.v / C13_proofs_closestfull.v; their refutations for the defective
+   variants: C13_refuted_box.v / C13_refuted_closest.v. *)
 From Coq Require Import ZArith List Lia Reals Lra.
 From Flocq Require Import Raux Generic_fmt.
-From P Require Import C13_gen C13_model C13_proofs_index.
+From P Require Import C13_num C13_gen C13_model C13_proofs_index.
 Import ListNotations.
 Open Scope R_scope.
 
@@ -35,21 +39,32 @@ Qed.
 (* ------------------------------------------------------------------ from_molecule(rotate=False), one direction *)
 Definition mid_axis (xs : list R) : R := (lmax ROps xs + lmin ROps xs) / 2.
 
-(* what the box arithmetic does guarantee: the margins are the requested extension, shifted by the offset of
-   the centre of nuclear charge from the middle of the molecule's extent *)
+(* unfold the generated box arithmetic on the reals and bring in the defining inequality of the ceiling:
+   leaves a goal over  m = number of planes  with  extent + 2 ext <= m * spacing *)
+Ltac box_unfold :=
+  unfold margin_lo, margin_hi, origin_axis, shape_axis, origin_axis_gen, shape_axis_gen, mid_axis;
+  cbn [ROps nadd nsub nmul ndiv none nzero nofZ nceil nabs];
+  match goal with
+  | |- context [Zceil (?A / ?s)] =>
+      let Hc := fresh "Hc" in let Hm := fresh "Hm" in
+      pose proof (Zceil_ub (A / s)) as Hc;
+      assert (Hm : A <= IZR (Zceil (A / s)) * s)
+        by (replace A with ((A / s) * s) at 1 by (field; lra); apply Rmult_le_compat_r; lra);
+      clear Hc; set (m := Zceil (A / s)) in *
+  end;
+  rewrite ?minus_IZR.
+
+(* what the box arithmetic guarantees whichever point the box is centred on (centre of nuclear charge at the pinned
+   commit, middle of the atomic extent after the repair): the requested margins, reduced by at most the offset of the
+   centre of nuclear charge from the middle of the molecule's extent *)
 Lemma box_margin_partial_lemma : forall zs xs spacing ext x, 0 < spacing -> In x xs ->
-  ext - (com_axis ROps zs xs - mid_axis xs) <= margin_lo ROps zs xs spacing ext x /\
-  (ext - spacing) + (com_axis ROps zs xs - mid_axis xs) <= margin_hi ROps zs xs spacing ext x.
+  ext - Rabs (com_axis ROps zs xs - mid_axis xs) <= margin_lo ROps zs xs spacing ext x /\
+  (ext - spacing) - Rabs (com_axis ROps zs xs - mid_axis xs) <= margin_hi ROps zs xs spacing ext x.
 Proof.
   intros zs xs s e x Hs Hx.
   pose proof (lmax_ge xs x Hx) as Hmax. pose proof (lmin_le xs x Hx) as Hmin.
-  unfold margin_lo, margin_hi, origin_axis, mid_axis, zz. set (c := com_axis ROps zs xs).
-  unfold shape_axis, zz. cbn [ROps nadd nsub nmul ndiv none nofZ nceil].
-  set (q := (lmax ROps xs - lmin ROps xs + 2 * e) / s).
-  pose proof (Zceil_ub q) as Hc. set (m := Zceil q) in *.
-  assert (Hq : q * s = lmax ROps xs - lmin ROps xs + 2 * e) by (unfold q; field; lra).
-  assert (Hm : lmax ROps xs - lmin ROps xs + 2 * e <= IZR m * s) by (rewrite <- Hq; apply Rmult_le_compat_r; lra).
-  rewrite minus_IZR. split; lra.
+  box_unfold. set (c := com_axis ROps zs xs) in *.
+  unfold Rabs. destruct (Rcase_abs _); split; lra.
 Qed.
 
 Lemma box_contains_symmetric_lemma : forall zs xs spacing ext x, 0 < spacing -> In x xs ->
@@ -57,28 +72,7 @@ Lemma box_contains_symmetric_lemma : forall zs xs spacing ext x, 0 < spacing -> 
   ext - spacing <= margin_lo ROps zs xs spacing ext x /\ ext - spacing <= margin_hi ROps zs xs spacing ext x.
 Proof.
   intros zs xs s e x Hs Hx Hc. destruct (box_margin_partial_lemma zs xs s e x Hs Hx) as [A B].
-  rewrite Hc in A, B. lra.
-Qed.
-
-(* the property itself is false for the model: H at 0, Hg (Z=80) at 10, spacing 1/5.
-   With extension 5 the first grid plane is only 10/81 below the hydrogen (4.8 was promised);
-   with extension 2 the hydrogen is outside the box altogether. *)
-Lemma rmax_10_0 : Rmax 10 0 = 10. Proof. apply Rmax_left; lra. Qed.
-Lemma rmin_10_0 : Rmin 10 0 = 0. Proof. apply Rmin_right; lra. Qed.
-
-Lemma box_refuted_lemma :
-  let zs := [1; 80] in let xs := [0; 10] in let spacing := 1 / 5 in
-  (Forall (fun z => 0 < z) zs /\ 0 < spacing /\ In 0 xs) /\
-  margin_lo ROps zs xs spacing 5 0 = 10 / 81 /\ 10 / 81 < 5 - spacing /\
-  margin_lo ROps zs xs spacing 2 0 = 10 - 800 / 81 - 3 /\ 10 - 800 / 81 - 3 < 0.
-Proof.
-  cbv zeta. split; [repeat split; try lra; [repeat constructor; lra|now left]|].
-  unfold margin_lo, origin_axis, shape_axis, com_axis, ndot, nsum, lmax, lmin, zz.
-  cbn [ROps nadd nsub nmul ndiv none nzero nofZ nceil nmax nmin fold_right map combine fst snd].
-  rewrite rmax_10_0, rmin_10_0.
-  replace ((10 - 0 + 2 * 5) / (1 / 5)) with (IZR 100) by (simpl; field).
-  replace ((10 - 0 + 2 * 2) / (1 / 5)) with (IZR 70) by (simpl; field).
-  rewrite !Zceil_IZR. repeat split; try lra; field.
+  rewrite Hc in A, B. replace (mid_axis xs - mid_axis xs) with 0 in A, B by ring. rewrite Rabs_R0 in A, B. lra.
 Qed.
 
 (* ------------------------------------------------------------------ closest_point *)
@@ -93,10 +87,25 @@ Proof.
   destruct Hc as [Hc|Hc]; apply IZR_le in Hc; [rewrite minus_IZR in Hc|rewrite plus_IZR in Hc]; nra.
 Qed.
 
-Lemma nearest_axis (p o d : R) (i : Z) : 0 < d ->
-  (p - (o + IZR (closest_coord ROps p o d) * d)) ^ 2 <= (p - (o + IZR i * d)) ^ 2.
+(* a query point within half a spacing of the box, positive step: the generated integer coordinate is the rounded
+   fractional coordinate and lies in the grid - for the code at the pinned commit (rint of (p - o)/|d|) and for the
+   repaired code (signed step, clipped to the grid) alike *)
+Lemma coord_inside (p o d : R) (n : Z) : 0 < d -> - / 2 < (p - o) / d < IZR n - / 2 ->
+  closest_coord_gen ROps p o d n = rint ((p - o) / d) /\ (0 <= rint ((p - o) / d) < n)%Z.
 Proof.
-  intros Hd. unfold closest_coord. cbn [ROps nsub ndiv nabs nrint]. rewrite Rabs_pos_eq by lra.
+  intros Hd Ht.
+  pose proof (Znearest_half (fun x => negb (Z.even x)) ((p - o) / d)) as H. apply Rabs_le_inv in H.
+  unfold closest_coord_gen. cbn [ROps nsub ndiv nabs nrint]. rewrite ?Rabs_pos_eq by lra.
+  set (r := rint ((p - o) / d)) in *.
+  assert (R0 : (0 <= r)%Z) by (assert (IZR (-1) < IZR r) by lra; apply lt_IZR in H0; lia).
+  assert (R1 : (r < n)%Z) by (apply lt_IZR; lra).
+  split; lia.
+Qed.
+
+Lemma nearest_axis (p o d : R) (n i : Z) : 0 < d -> - / 2 < (p - o) / d < IZR n - / 2 ->
+  (p - (o + IZR (closest_coord_gen ROps p o d n) * d)) ^ 2 <= (p - (o + IZR i * d)) ^ 2.
+Proof.
+  intros Hd Ht. destruct (coord_inside p o d n Hd Ht) as [-> _].
   set (t := (p - o) / d). assert (Hp : p = o + t * d) by (unfold t; field; lra).
   pose proof (nearest_1d t i) as H. set (c := rint t) in *.
   replace (p - (o + IZR c * d)) with ((t - IZR c) * d) by (rewrite Hp at 1; ring).
@@ -105,15 +114,8 @@ Proof.
 Qed.
 
 Lemma coord_in_range (p o d : R) (n : Z) : 0 < d -> - / 2 < (p - o) / d < IZR n - / 2 ->
-  (0 <= closest_coord ROps p o d < n)%Z.
-Proof.
-  intros Hd Ht. unfold closest_coord. cbn [ROps nsub ndiv nabs nrint]. rewrite Rabs_pos_eq by lra.
-  set (t := (p - o) / d) in *.
-  pose proof (Znearest_half (fun x => negb (Z.even x)) t) as H. apply Rabs_le_inv in H.
-  set (c := rint t) in *. split.
-  - assert (IZR (-1) < IZR c) by lra. apply lt_IZR in H0. lia.
-  - apply lt_IZR. lra.
-Qed.
+  (0 <= closest_coord_gen ROps p o d n < n)%Z.
+Proof. intros Hd Ht. destruct (coord_inside p o d n Hd Ht) as [-> H]. exact H. Qed.
 
 Definition dist2_3 (p q : R * R * R) : R :=
   let '(p0, p1, p2) := p in let '(q0, q1, q2) := q in (p0 - q0) ^ 2 + (p1 - q1) ^ 2 + (p2 - q2) ^ 2.
@@ -137,8 +139,8 @@ Proof.
   pose proof (coord_in_range p2 o2 d2 n2 D2 T2) as R2.
   repeat split; try lia; try (apply index_range3_lemma; assumption).
   intros i j k. unfold dist2_3, node3.
-  pose proof (nearest_axis p0 o0 d0 i D0). pose proof (nearest_axis p1 o1 d1 j D1).
-  pose proof (nearest_axis p2 o2 d2 k D2). lra.
+  pose proof (nearest_axis p0 o0 d0 n0 i D0 T0). pose proof (nearest_axis p1 o1 d1 n1 j D1 T1).
+  pose proof (nearest_axis p2 o2 d2 n2 k D2 T2). lra.
 Qed.
 
 Lemma closest_is_nearest2_lemma : forall o0 o1 d0 d1 n0 n1 p0 p1,
@@ -154,31 +156,5 @@ Proof.
   pose proof (coord_in_range p1 o1 d1 n1 D1 T1) as R1.
   repeat split; try lia; try (apply index_range2_lemma; assumption).
   intros i j. unfold dist2_2, node2.
-  pose proof (nearest_axis p0 o0 d0 i D0). pose proof (nearest_axis p1 o1 d1 j D1). lra.
-Qed.
-
-(* outside those hypotheses the query is wrong:
-   (a) an orthogonal axis pointing in the negative direction: the grid node (1,0,0) of the 3x3x3 grid with
-       axes diag(-1,1,1) is mapped to coordinates (-1,0,0), flat index -9 (the node has index 9);
-   (b) a query point outside the box: on the 3x4x5 unit grid the point (0,0,7) is mapped to flat index 7,
-       which is the node (0,1,2) at squared distance 26, while the node (0,0,4) is at squared distance 9. *)
-Lemma rint_IZR (n : Z) (x : R) : x = IZR n -> rint x = n.
-Proof.
-  intros ->. apply Znearest_imp. replace (IZR n - IZR n) with 0 by ring. rewrite Rabs_R0. lra.
-Qed.
-
-Lemma closest_refuted_lemma :
-  (closest3 ROps (0, 0, 0) (-1) 1 1 3 3 3 (node3 (0, 0, 0) (-1) 1 1 1 0 0) = (-1, 0, 0, -9)%Z /\
-   coordinates_to_index3 3 3 3 1 0 0 = 9%Z) /\
-  (closest3 ROps (0, 0, 0) 1 1 1 3 4 5 (0, 0, 7) = (0, 0, 7, coordinates_to_index3 3 4 5 0 1 2)%Z /\
-   dist2_3 (0, 0, 7) (node3 (0, 0, 0) 1 1 1 0 0 4) < dist2_3 (0, 0, 7) (node3 (0, 0, 0) 1 1 1 0 1 2)).
-Proof.
-  assert (A1 : Rabs (-1) = 1) by (rewrite Rabs_left; lra).
-  assert (A2 : Rabs 1 = 1) by (apply Rabs_pos_eq; lra).
-  unfold closest3, closest_coord, node3, dist2_3. cbn [ROps nsub ndiv nabs nrint]. rewrite A1, A2.
-  rewrite (rint_IZR (-1) ((0 + 1 * -1 - 0) / 1)) by lra.
-  rewrite (rint_IZR 0 ((0 + 0 * 1 - 0) / 1)) by lra.
-  rewrite (rint_IZR 0 ((0 - 0) / 1)) by lra.
-  rewrite (rint_IZR 7 ((7 - 0) / 1)) by lra.
-  repeat split. lra.
+  pose proof (nearest_axis p0 o0 d0 n0 i D0 T0). pose proof (nearest_axis p1 o1 d1 n1 j D1 T1). lra.
 Qed.
